@@ -310,6 +310,26 @@ def diff_fields(got, exp, got_recs, exp_recs):
     return out
 
 
+# (exception type, innermost /repo function) -> the model's error sites (State2.v E_*) that stand for that raise
+SITE_OF = {
+    ('ValueError', 'node.py:release_blocked_individual'): (4,),          # list.index of a blocked-queue entry
+    ('ValueError', 'node.py:release'): (3,),                             # individuals[prev_priority_class].remove
+    ('ValueError', 'node.py:renege'): (3,),
+    ('ValueError', 'node.py:change_priority_queue'): (3,),
+    ('AttributeError', 'node.py:write_individual_record'): (5,),         # individual.server is False
+    ('AttributeError', 'node.py:write_interruption_record'): (5,),
+    ('AttributeError', 'node.py:detatch_server'): (5,),
+    ('AttributeError', 'node.py:finish_service'): (5, 2),
+    ('AttributeError', 'node.py:<genexpr>'): (5,),                       # s.cust.priority_class with s.cust False
+    ('ValueError', 'node.py:decide_preempt'): (10,),                     # max() of no servers
+    ('ValueError', 'node.py:kill_server'): (14,),
+    ('ValueError', 'node.py:begin_interrupted_individuals_service'): (13, 15),
+    ('IndexError', 'node.py:begin_interrupted_individuals_service'): (15,),
+    ('IndexError', 'auxiliary.py:random_choice'): (7,),
+    ('ValueError', 'arrival_node.py:batch_size'): (9,),
+}
+
+
 def check_trace(tr, drv, max_frames=80, mask=None, detail=False):
     """-> dict(frames, mismatch = first divergence that touches the mask (all fields when mask is None), other = number of
     frames that diverged only outside the mask)"""
@@ -430,7 +450,11 @@ def check_trace(tr, drv, max_frames=80, mask=None, detail=False):
             v = drv.ask(STEP, sx.dump([ecfg, enc_state(prev, cfg, nxt, now, cyc), dr]))
             out = parse(v[1]) if v[0] == 'M' else [9]
             res['exc'] = {'py': list(tr.exc[:2]), 'model': out[:2] if out[0] in (1, 2, 3) else [out[0]]}
+            want = SITE_OF.get(tuple(tr.exc[:2]))
             if out[0] != 1:
                 res['mismatch'] = {'frame': len(tr.frames) + 1, 'what': 'implementation raised, model did not', 'label': part['label'],
                                    'py': list(tr.exc), 'model': out[:1]}
+            elif want is not None and out[1] not in want:
+                res['mismatch'] = {'frame': len(tr.frames) + 1, 'what': 'implementation and model stop at different sites', 'label': part['label'],
+                                   'py': list(tr.exc), 'model': out[:2], 'expected_sites': list(want)}
     return res
